@@ -20,6 +20,9 @@ CHECKS = {
  "C05": dict(category="exploration", technique="Hypothesis-generated CDS (layouts x strand x start offset x programmed frameshift x windows) plus exhaustive single-exon window product, judged by an independent reading-frame walk and Biopython's codon table",
    text="Codon locations as position triples, the fast and cached extraction paths, scan_codons, 12 translate configurations (3 start tables x truncate x strict), start/stop/in-frame-stop predicates, chromosome windows with and without expansion, and construct_frames_from_location, all against one FrameModel walk over the exons.",
    note="Degenerate corner (skip >= exon length) only checked for self-consistency; windows not touching any codon may be refused. Known finding F6 (single-exon offset arithmetic, pinned by the repository's own tests).", ref="DESIGN.md §5 C05"),
+ "C06": dict(category="exploration", technique="Hypothesis-generated transcripts with the CDS placed as a contiguous run of the transcript (biased to ends/exon boundaries), judged by position lists T and C=T[i:j]",
+   text="Every transcript, CDS and chromosome position (span+-1) through every conversion and its inverse, both paths chromosome->CDS, random intervals in each system, amino-acid index, non-coding refusals, 5'UTR/CDS/3'UTR partition (positions, order, sequence concatenation), introns and span.",
+   note="An empty UTR may be any zero-length location but never an exception.", ref="DESIGN.md §5 C06"),
  "C15": dict(category="exploration", technique="exhaustive enumeration of the finite domains against typed-in IUPAC tables and Biopython's NCBI codon tables",
    text="Every element of every finite domain (4096 IUPAC triplets x case, all alphabet letters, frames x shifts in [-30,30], all strand pairs/triples, all biotype names) is enumerated and compared with an independent reference; within those domains this is complete.",
    note="Trusts Biopython CodonTable ids 1/11 and Bio.Seq.complement; IUPAC tables typed into checks/c15.py.", ref="DESIGN.md §5 C15"),
